@@ -4,6 +4,8 @@ Four layers, all on the real classes:
   (a) algebra  - families of result sets (built by the real readers) folded with `|` and with `|=`, every order, vs multiset union
   (b) readers  - generated Sonar / Semgrep-SARIF / CodeQL-SARIF / DefectDojo documents vs a reference extraction written from the formats
   (c) detectors- the functions the SAST detectors call to combine several files per tool, every order, vs union of reference extractions
+  (e) hand-off - the real BaseCodemod._process_file (transformer replaced by a recorder) over the cached combined result set, three uses in a row, every
+                 file x sampled rule lists: findings handed over == reference findings of those rules in that file; the cached set is not written to
   (d) end2end  - real CLI runs with the findings of n sites partitioned over 2-3 result files (issues/hotspots, several files), every order:
                  every reported site must be fixed
 Monitors: post-condition wrappers (counted) on ResultSet.__or__, ResultSet.add_result and the readers record operands/results;
@@ -292,7 +294,7 @@ def main():
     from codemodder.codemods.codeql import process_codeql_findings
     import logging; logging.getLogger().setLevel(logging.CRITICAL); logging.getLogger("codemodder").setLevel(logging.CRITICAL); logging.disable(logging.CRITICAL)
     d = Path(tempfile.mkdtemp(prefix="vf_c12_")); uid = itertools.count(1)
-    viols = []; evals = collections.Counter(); nontrivial = set(); samples = []
+    viols = []; evals = collections.Counter(); nontrivial = set(); samples = []; counters = {}
     READERS = {"sonar": (lambda f: SonarResultSet.from_json(str(f)), gen_sonar, ref_sonar, process_sonar_findings, SonarResultSet),
                "semgrep": (lambda f: SemgrepResultSet.from_sarif(str(f)), lambda r, u: gen_sarif(r, "semgrep", u), lambda doc: ref_sarif(doc, "semgrep"), process_semgrep_findings, SemgrepResultSet),
                "codeql": (lambda f: CodeQLResultSet.from_sarif(str(f)), lambda r, u: gen_sarif(r, "codeql", u), lambda doc: ref_sarif(doc, "codeql"), process_codeql_findings, CodeQLResultSet),
@@ -365,9 +367,60 @@ def main():
                     if got != want:
                         kind = "loses" if total(got) < total(want) else ("duplicates" if total(got) > total(want) else "alters")
                         viols.append(Violation("C12", ("ior-overwrites" if kind == "loses" else f"detector-{kind}/{tool}"), f"{tool} detector over {k} files holds {total(got)} findings, the files hold {total(want)}", {"tool": tool, "operands": [str(fam[j][1])[:300] for j in order], "got": str(got)[:600]}, jobs=[{"layer": "detector", "tool": tool, "docs": [json.loads(Path(f).read_text()) for f in files]}]))
+        # (e) hand-off: the real BaseCodemod._process_file of a real codemod, its transformer replaced by a recorder, is given the (per-process cached) combined
+        #     result set of 1-2 files, three times over: for every file and every rule list it must hand the transformer exactly the reference findings of those
+        #     rules in that file, and the cached result set must be the same multiset before and after (a hand-off never writes into the store it reads)
+        import types
+        from codemodder.registry import load_registered_codemods
+        hand_cm = {}
+        for c in load_registered_codemods().codemods:
+            t = c.id.split(":")[0]
+            if t in READERS and (t not in hand_cm or len(getattr(c, "requested_rules", None) or []) > len(getattr(hand_cm[t], "requested_rules", None) or [])): hand_cm[t] = c
+        class Recorder:
+            def __init__(self): self.got = None
+            def apply(self, context, file_context, findings): self.got = (list(findings) if findings is not None else None, list(getattr(file_context, "findings", None) or [])); return None
+        def fcount_of(lst, p):
+            c = collections.Counter()
+            for r in lst: c[(tuple((l.start.line, l.start.column, l.end.line, l.end.column) for l in r.locations if str(l.file) == p), str(getattr(r, "finding_id", None)))] += 1
+            return c
+        ctx = types.SimpleNamespace(directory=d, path_include=[], path_exclude=[], verbose=False, dry_run=False, max_workers=1)
+        for tool, (read, gen, ref, det, cls) in READERS.items():
+            cm = hand_cm.get(tool)
+            rich = [g for g in good[tool] if any(sum(1 for r in g[1] if p in g[1][r]) >= 2 for p in PATHS)]   # some file has findings of >= 2 rules
+            if cm is None or len(rich) < 3: continue
+            real_tr = cm.transformer
+            try:
+                for i in range(N_DET // 6):
+                    fam = [rnd.choice(rich)] + ([rnd.choice(good[tool])] if rnd.random() < 0.5 else [])
+                    files = tuple(str(f) for f, _, _ in fam); want = {}
+                    for _, m_, _ in fam: want = union(want, m_)
+                    rule_lists = [list(x) for n_ in (1, 2, 3) for x in itertools.permutations(RULES[tool], n_)]
+                    for rep in range(3):
+                        rs = det(files); before = ms(rs)
+                        for pth in PATHS:
+                            for rules in rnd.sample(rule_lists, 5):
+                                evals["handoff:" + tool] += 1; counters["handoff._process_file"] = counters.get("handoff._process_file", 0) + 1
+                                exp = collections.Counter()
+                                for r in rules: exp.update(want.get(r, {}).get(pth, {}))
+                                rec = Recorder(); cm.transformer = rec
+                                try: cm._process_file(d / pth, ctx, rs, rules)
+                                except Exception as ex:
+                                    viols.append(Violation("C12", f"handoff-raises-{type(ex).__name__}/{tool}", f"_process_file({pth}, rules={rules}) raised {ex!r}", {"tool": tool, "rules": rules, "file": pth}, jobs=[{"layer": "handoff", "tool": tool, "docs": [json.loads(Path(f).read_text()) for f in files]}])); continue
+                                got = fcount_of(rec.got[0], pth) if rec.got and rec.got[0] is not None else collections.Counter()
+                                if sum(exp.values()) >= 2 and len([r for r in rules if want.get(r, {}).get(pth)]) >= 2: nontrivial.add(("handoff", tool, files, pth, tuple(rules), rep))
+                                if got != exp:
+                                    kind = "loses" if sum(got.values()) < sum(exp.values()) else ("duplicates" if sum(got.values()) > sum(exp.values()) else "alters")
+                                    nr = "several-rules" if len(rules) > 1 else "one-rule"
+                                    viols.append(Violation("C12", f"handoff-{kind}/{tool}/{nr}/" + ("first-use" if rep == 0 else "repeated-use-of-cached-results"), f"{cm.id}._process_file({pth}, rules={rules}), use #{rep + 1} of the same result files: the transformer was handed {sum(got.values())} findings, the files hold {sum(exp.values())} for these rules in this file",
+                                                           {"tool": tool, "rules": rules, "file": pth, "use": rep + 1, "handed": str(got)[:600], "reference": str(exp)[:600]}, jobs=[{"layer": "handoff", "tool": tool, "docs": [json.loads(Path(f).read_text()) for f in files]}]))
+                        after = ms(rs)
+                        if after != before:
+                            viols.append(Violation("C12", f"handoff-mutates-result-set/{tool}", f"the combined result set of {len(files)} file(s) held {total(before)} findings before the codemod's per-file hand-off and {total(after)} after it (use #{rep + 1})",
+                                                   {"tool": tool, "use": rep + 1, "before": str(before)[:600], "after": str(after)[:600]}, jobs=[{"layer": "handoff", "tool": tool, "docs": [json.loads(Path(f).read_text()) for f in files]}]))
+            finally: cm.transformer = real_tr
         for x in mon.or_violations[:50]:
             viols.append(Violation("C12", "or-postcondition", "ResultSet.__or__ returned something other than the multiset union of its operands", x))
-        counters = dict(mon.counts)
+        counters.update(mon.counts)
     shutil.rmtree(d, ignore_errors=True)
     # (d) end to end
     jobs = e2e_jobs(tier, rnd); res = run_jobs(jobs, timeout=300); inconcl = 0; st = collections.Counter()
@@ -381,7 +434,7 @@ def main():
         for x in nt: nontrivial.add(("e2e", x))
         if nt and len(samples) < 5: samples.append({"layer": "e2e", "argv": job["argv"], "result_files": job["result_files"], "all_sites_fixed": not v})
     return finish("C12", "exploration", tier, seed, t0, evaluations=sum(evals.values()), nontrivial=nontrivial, violations=viols, min_nontrivial=100, counters=counters, inconclusive_cases=inconcl,
-                  deciding_counters=("ResultSet.__or__", "ResultSet.add_result", "e2e_pipe_libcst"), samples=samples, stats=dict(evals) | dict(st), module=__name__,
+                  deciding_counters=("ResultSet.__or__", "ResultSet.add_result", "e2e_pipe_libcst", "handoff._process_file"), samples=samples, stats=dict(evals) | dict(st), module=__name__,
                   rule="(a) families of 2-4 result sets per tool folded with | and |= vs multiset union; (b) generated Sonar/Semgrep/CodeQL/DefectDojo documents vs reference extraction; (c) detector combination functions over every order of 2-3 files; (d) CLI runs with n=4 sites' findings partitioned over 2-3 files in every order. non-trivial = >=2 non-empty operands / a document with >=1 open located finding / an e2e run; distinct by operands",
                   assumptions=["reference extraction written from the Sonar web-API, SARIF 2.1.0 and DefectDojo v2 layouts, not from the readers", "a finding's identity is its key/id where the format has one (Sonar key, DefectDojo id), else its rule id",
                                "results without a region/textRange have no location and are outside the statement"])
